@@ -115,6 +115,22 @@ def n_candidates(cand, yid):
     return len(cand["value"])
 
 
+def _gnb_degenerate(X, yid):
+    lab_rows = {tuple(X[i]) for i in range(len(X)) if yid[i] is not None}
+    lab_y = [v for v in yid if v is not None]
+    return len(lab_rows) == 1 and len(lab_y) >= 3 and len(set(lab_y)) >= 2
+
+
+def gnb_zero_variance(case):
+    """True iff the case trains GaussianNB on >= 3 identical rows of two
+    classes (input region of known finding KF-C11-6)."""
+    ent = poolreg.base_entry(case["entry"])
+    eff = case.get("opts", {}).get("model_key") or (
+        ent["model"][1] if ent["model"] and ent["model"][0] == "clf"
+        else None)
+    return eff == "gnb" and _gnb_degenerate(case["X"], case["yid"])
+
+
 @st.composite
 def pool_case(draw, names, allow_feat=True, max_n=None, force_cand=None,
               encodings=("float_nan",), batch_sizes=None, min_unlabeled=1,
@@ -160,6 +176,20 @@ def pool_case(draw, names, allow_feat=True, max_n=None, force_cand=None,
             ent["model"][1] == "pwc" and ent["cls"] in poolreg.ANY_CLF:
         opts["model_key"] = draw(st.sampled_from(
             ["pwc", "pwc", "gnb", "lr", "tree_clf", "pwc_default"]))
+    excluded = None
+    eff = opts.get("model_key") or (
+        ent["model"][1] if ent["model"] and ent["model"][0] == "clf"
+        else None)
+    if eff == "gnb":
+        if _gnb_degenerate(X, yid):
+            # known finding KF-C11-6 (recorded for C11, where it belongs):
+            # scikit-learn's GaussianNB on zero-variance training rows of
+            # two classes (>= 3 rows; fewer rows give NaN, which the wrapper
+            # repairs) returns rows summing to 2 and SklearnClassifier
+            # passes them on; excluded by construction here so that the
+            # search continues (counted as "excluded_by_construction=...")
+            opts["model_key"] = "pwc"
+            excluded = "KF-C11-6:gnb_zero_variance"
     if use_alt and ent["alt"] and not poolreg.is_wrapper(name) and \
             draw(st.integers(0, 2)) == 0:
         # alternative constructor configuration (dict / array valued
@@ -175,8 +205,11 @@ def pool_case(draw, names, allow_feat=True, max_n=None, force_cand=None,
     excl = poolreg.is_wrapper(name) and poolreg.entry_of(name)["init"].get(
         "exclude_non_subsample")
     if ent["sample_weight"] and not excl and draw(st.booleans()):
+        # ordinary weights, or weights on a large scale (e.g. counts of
+        # aggregated observations): kernel frequency estimates in the hundreds
+        scale = draw(st.sampled_from([1, 1, 1, 1, 100, 1000]))
         opts["sample_weight"] = [
-            _round2(draw(st.floats(0.1, 3))) for _ in range(n)]
+            _round2(draw(st.floats(0.1, 3))) * scale for _ in range(n)]
     # how the array-like arguments are handed over (ndarray / nested lists /
     # integer-typed feature matrix where all features are integral)
     opts["arg_style"] = draw(st.sampled_from(
@@ -185,6 +218,8 @@ def pool_case(draw, names, allow_feat=True, max_n=None, force_cand=None,
                 cand=cand, batch_size=bs,
                 seed=draw(st.integers(0, 2**31 - 1)), opts=opts,
                 meta={"regime": regime, "cand_mode": cmode})
+    if excluded:
+        case["meta"]["excluded"] = excluded
     return case
 
 
